@@ -87,6 +87,11 @@ func decodeCase(d []byte) (mcase, bool) {
 		}
 	}
 	c.Scribble = len(c.Parts) >= 2 && d[2]&32 == 0
+	if d[2]&64 != 0 {
+		c.Align = true
+		c.SrcOff, c.DstOff, c.Adj = int(d[13]&15), int(d[14]&15), int(d[15])%3
+	}
+	c.IVOff = int(d[16] & 15)
 	return c, c.valid() == nil
 }
 
